@@ -16,7 +16,7 @@ from elementpath.exceptions import ElementPathValueError
 from elementpath.sequences import xlist, XSequence
 from elementpath.helpers import split_function_test
 
-from elementpath.sequence_types import match_sequence_type
+from elementpath.sequence_types import match_sequence_type, is_sequence_type_restriction
 from .functions import XPathFunction
 
 
@@ -156,9 +156,10 @@ class XPathArray(XPathFunction):
         elif len(sequence_types) != 2:
             return False
 
+        # An array is a function(xs:integer) as M: it matches function(I) as R if I is a subtype
+        # of xs:integer (parameters are contravariant) and every member matches R.
         index_type, value_type = sequence_types
-        if index_type.endswith(('+', '*')):
+        if not is_sequence_type_restriction('xs:integer', index_type):
             return False
 
-        return match_sequence_type(1, index_type) and \
-            all(match_sequence_type(v, value_type, self.parser) for v in self.items())
+        return all(match_sequence_type(v, value_type, self.parser) for v in self.items())
